@@ -71,17 +71,21 @@ def rule_effects(facts, rep):
         ok = len(loops) == 1 and loops[0][0].get("k") == "pbind" and bool(hir.calls_in(loops[0][1], "anstyle::effect::Effects::index_iter"))
         if ok:
             var = loops[0][0]["name"]
+            R = hir.Resolver(b["hir"])
             esc = [n for n in hir.walk(loops[0][2]) if n.get("k") == "field" and n["name"] == "escape" and hir.simp(n["e"]).get("k") == "index"
                    and hir.is_def(hir.simp(n["e"])["e"], "effect::METADATA") and hir.is_local(hir.simp(n["e"])["i"], var)]
             sinks = [n for n in hir.walk(b["hir"]) if n.get("k") == "call" and hir.callee(n).split("::")[-1] in ("write_str", "write_all", "write", "write_fmt", "write_char")]
             ok = len(esc) == 1 and len(sinks) == 1 and hir.callee(sinks[0]).split("::")[-1] == sink
-            # the loop body is exactly `sink(METADATA[index].escape)?`: unconditional, unbuffered, error propagated
-            st = hir.stmts_of(loops[0][2])
+            # the loop body is `sink(METADATA[index].escape)?` (the escape possibly named by a temporary first): unconditional,
+            # unbuffered, error propagated
+            st = [x for x in hir.stmts_of(loops[0][2]) if not (hir.simp(x).get("k") == "let" and "els" not in hir.simp(x) and hir.simp(x)["pat"].get("k") == "pbind"
+                                                               and not any(c.get("k") == "call" and not c.get("ctor") and hir.callee(c).split("::")[-1] != "as_bytes"
+                                                                           for c in hir.walk(hir.simp(x).get("init", {}))))]
             one = len(st) == 1 and hir.try_inner(hir.simp(st[0])) is not None and hir.simp(hir.try_inner(hir.simp(st[0]))) is sinks[0] if ok else False
             if one:
-                a = hir.peel(sinks[0]["args"][1])
+                a = hir.peel(R.res(hir.peel(sinks[0]["args"][1])))
                 if hir.is_call(a, "as_bytes"):
-                    a = hir.peel(a["args"][0])
+                    a = hir.peel(R.res(hir.peel(a["args"][0])))
                 one = a is esc[0] or hir.simp(a) is esc[0]
             rep.check(bool(one), "effects", b["path"], "each-member's-escape-goes-straight-to-the-sink",
                       f"loop body must be exactly `{sink}(METADATA[index].escape)?` — a conditional or buffered emission can drop a member's code", loc(b))
@@ -365,24 +369,45 @@ def rule_order(facts, rep):
     r = facts.body("anstyle", S + "render")
     e = ac.single_expr(r["hir"])
     rep.check(e.get("ctor") == "anstyle::style::StyleDisplay" and hir.is_local(e["args"][0], "self"), "order", r["path"], "wraps-self", "", loc(r))
-    # reset: RESET iff self != Style::new()
+    # reset: RESET iff the style is not plain — 16 cases (each colour present or not, effects empty or not) by abstract
+    # evaluation, so `self != Style::new()`, `!self.is_plain()`, early returns and temporaries are all the same function
+    import abseval
+    RESET = hir.lit_val(ac.single_expr(facts.body("anstyle", "anstyle::reset::RESET")["hir"]))
+    consts = {"anstyle::reset::RESET": RESET}
+    for it in facts.items("anstyle"):
+        if it["dk"] == "AssocConst" and it["path"].startswith(ac.EFF + "::") and isinstance(it.get("value"), int):
+            consts[it["path"]] = ("rec", {"0": ("int", it["value"])})
     for fn in ("render_reset", "write_reset_to"):
         b = facts.body("anstyle", S + fn)
         rep.fn(b["path"])
-        e = ac.single_expr(b["hir"])
-        ok = False
-        if e.get("k") == "if" and "e" in e:
-            c = hir.simp(e["c"])
-            if c.get("k") == "bin" and c["op"] in ("Ne", "Eq"):
-                sides = [hir.simp(c["l"]), hir.simp(c["r"])]
-                is_cmp = any(hir.is_local(x, "self") for x in sides) and any(hir.is_call(x, S + "new") for x in sides)
-                t, el = (e["t"], e["e"]) if c["op"] == "Ne" else (e["e"], e["t"])
-                has_reset = any(hir.is_def(n, "reset::RESET") for n in hir.walk(t))
-                no_reset = not any(hir.is_def(n, "reset::RESET") for n in hir.walk(el))
-                empty = any(hir.lit_val(n) == "" for n in hir.walk(el)) if fn == "render_reset" else \
-                    hir.simp(ac.single_expr(el)).get("ctor", "").endswith("Result::Ok")
-                ok = is_cmp and has_reset and no_reset and empty
-        rep.check(ok, "order", b["path"], "RESET-iff-not-plain", "the reset form is RESET when self != Style::new() and empty otherwise", loc(b))
+        bad = []
+        for fgv, bgv, ulv, eff in itertools.product((("none",), ("some", ("sym", "c"))), (("none",), ("some", ("sym", "c"))), (("none",), ("some", ("sym", "c"))), (0, 1)):
+            writes = []
+            ev = abseval.Evaluator(facts, "anstyle", {"std::io::Write::write_all": lambda a, writes=writes: (writes.append(a[1]), ("sym", "write-result"))[1],
+                                                      "core::str::<impl str>::as_bytes": lambda a: a[0]})
+            ev.consts = consts
+            env = abseval.Env()
+            env[b["params"][0]["name"]] = ("rec", {"fg": fgv, "bg": bgv, "underline": ulv, "effects": ("rec", {"0": ("int", eff)})})
+            if len(b["params"]) > 1:
+                env[b["params"][1]["name"]] = ("sym", "writer")
+            try:
+                try:
+                    r = ev.ev(b["hir"], env)
+                except abseval.Return as rt:
+                    r = rt.v
+            except Unrecognised as ex:
+                raise Unrecognised(f"Style::{fn}: {ex}")
+            plain = fgv == ("none",) and bgv == ("none",) and ulv == ("none",) and eff == 0
+            if fn == "render_reset":
+                want = ("ctor", "anstyle::color::NullFormatter", ("str", "" if plain else RESET))
+                if r != want:
+                    bad.append(f"{'plain' if plain else 'styled'}: {r}")
+            else:
+                want_w = [] if plain else [("str", RESET)]
+                want_r = ("ok", ("unit",)) if plain else ("sym", "write-result")
+                if writes != want_w or r != want_r:
+                    bad.append(f"{'plain' if plain else 'styled'}: writes {writes}, returns {r}")
+        rep.check(not bad, "order", b["path"], "RESET-iff-not-plain", f"the reset form is RESET when self != Style::new() and empty otherwise: {bad[:2]}", loc(b))
 
 
 def rule_no_padding(facts, rep, crate, prop):
@@ -440,6 +465,13 @@ def rule_no_padding(facts, rep, crate, prop):
     for it in facts.items(crate):
         if it["dk"] == "OpaqueTy":
             hidden = it["hidden"]
+            try:
+                psig = facts.body(crate, it["parent"]).get("sig", "")
+            except AnchorMissing:
+                hb = [h for h in facts.crate(crate).get("helper_bodies", []) if h["path"] == it["parent"]]
+                psig = hb[0].get("sig", "") if hb else "Display"
+            if "Display" not in psig.split("->")[-1]:
+                continue          # `impl Iterator` and the like: not a renderer
             rep.check(hidden in local_display, "no-padding", it["parent"], "impl-Display-hides-a-local-type",
                       f"`{it['parent']}` returns `impl Display` hiding `{hidden}`: only the crate's own Display types ignore "
                       f"formatter flags (a `&str` would be padded/truncated by width and precision)", f"{it['file']}:{it['ln']}")
